@@ -35,19 +35,22 @@ def reset_identity():
     ident.update({k: '' for k, _ in list(ident)})
 
 
-def install(pairs, as_str=False):
-    """pairs = [[object id, [byte, ...]], ...] -> installed through the public update(); returns what is stored."""
+def install(pairs, as_str=False, via="update"):
+    """pairs = [[object id, [byte, ...]], ...] -> installed through the public API: update() with a dictionary, or item assignment
+    (identity[object id] = value).  Whether the identity then holds what was configured is not checked here: the chains are judged
+    against the configured identity, so an object the library failed to store shows up as a missing object."""
     reset_identity()
     ident = _identity()
     new = {}
     for oid, val in pairs:
         b = bytes(val)
         new[int(oid)] = b.decode('ascii') if as_str else b
-    ident.update(new)
-    stored = {k: v for k, v in list(ident) if v}
-    if stored != {k: v for k, v in new.items() if v}:
-        raise RuntimeError("identity was not stored as installed")
-    return stored
+    if via == "setitem":
+        for k, v in new.items():
+            ident[k] = v
+    else:
+        ident.update(new)
+    return {k: v for k, v in list(ident) if v}
 
 
 def _cli_record(c):
@@ -83,7 +86,7 @@ def judged_complete(pairs, code, start):
 
 def run_chain(tid, pairs, code, start, as_str=False, cap=None, context=None):
     """One client chain on a freshly installed identity."""
-    install(pairs, as_str=as_str)
+    install(pairs, as_str=as_str, via="setitem" if (len(tid) + code + start) % 2 else "update")
     if cap is None:
         cap = min(PAGE_CAP, len([1 for _, v in pairs if len(v)]) + CAP_SLACK)
     pages, oid, cut = [], start, 0
